@@ -392,6 +392,7 @@ impl Sys {
     if value == 1 { if !self.down.contains(&code) { self.down.push(code); } } else { self.down.retain(|c| *c != code); }
     if self.noise >= 1 { self.kbytes.push_back(frame(4, 4, code as i32)); }            // MSC_SCAN
     if self.noise >= 2 { self.kbytes.push_back(frame(1, self.unknown_code, 1)); }       // a key the tool has no name for
+    if self.noise >= 2 { self.kbytes.push_back(frame(0, 3, 0)); }                       // SYN_DROPPED: the client buffer was overrun; the records after it are genuine
     self.kbytes.push_back(frame(1, code, value));
     if self.noise >= 1 { self.kbytes.push_back(frame(0, 0, 0)); }                       // SYN_REPORT
     if self.noise >= 2 && value == 1 { self.kbytes.push_back(frame(1, code, 2)); self.kbytes.push_back(frame(0, 0, 0)); }  // auto-repeat
@@ -494,6 +495,7 @@ pub unsafe extern "C" fn epoll_wait(epfd: libc::c_int, events: *mut libc::epoll_
 
 #[no_mangle]
 pub unsafe extern "C" fn read(fd: libc::c_int, buf: *mut libc::c_void, count: libc::size_t) -> libc::ssize_t {
+  if let Some((ret, errno)) = crate::supervise::hook_read(fd) { if ret < 0 { set_errno(errno); } return ret; }
   match with_sys(|sys| {
     if fd == sys.kfd { Some(if sys.full.as_ref().map(|f| f.phase == 0).unwrap_or(false) { sys.su_read(buf as *mut u8, count) } else { sys.read_k(buf as *mut u8, count) }) }
     else if fd == sys.tfd { Some(sys.read_t(buf as *mut u8, count)) }
@@ -506,6 +508,7 @@ pub unsafe extern "C" fn read(fd: libc::c_int, buf: *mut libc::c_void, count: li
 
 #[no_mangle]
 pub unsafe extern "C" fn write(fd: libc::c_int, buf: *const libc::c_void, count: libc::size_t) -> libc::ssize_t {
+  if let Some((ret, errno)) = crate::supervise::hook_write(fd, buf as *const u8, count) { if ret < 0 { set_errno(errno); } return ret; }
   match with_sys(|sys| {
     if fd != sys.wfd { None }
     else if sys.full.as_ref().map(|f| f.phase < 2).unwrap_or(false) { Some(sys.su_udev_write(buf as *const u8, count)) }
@@ -520,6 +523,7 @@ pub unsafe extern "C" fn write(fd: libc::c_int, buf: *const libc::c_void, count:
 #[no_mangle]
 pub unsafe extern "C" fn open(path: *const libc::c_char, flags: libc::c_int, mode: libc::mode_t) -> libc::c_int {
   let p = if path.is_null() { String::new() } else { std::ffi::CStr::from_ptr(path).to_string_lossy().into_owned() };
+  if let Some(fd) = crate::supervise::hook_open(&p, flags) { return fd; }
   match with_sys(|sys| if sys.full.is_some() { sys.su_open(&p, flags) } else { None }) {
     Some(fd) => fd,
     None => libc::syscall(libc::SYS_open, path, flags, mode as libc::c_uint) as libc::c_int
@@ -528,10 +532,19 @@ pub unsafe extern "C" fn open(path: *const libc::c_char, flags: libc::c_int, mod
 
 #[no_mangle]
 pub unsafe extern "C" fn ioctl(fd: libc::c_int, req: libc::c_ulong, arg: *mut libc::c_void) -> libc::c_int {
+  if let Some((ret, errno)) = crate::supervise::hook_ioctl(fd, req, arg) { if ret < 0 { set_errno(errno); } return ret; }
   match with_sys(|sys| if sys.full.is_some() && (fd == sys.kfd || fd == sys.wfd || fd == sys.tfd) { Some(sys.su_ioctl(fd, req, arg)) } else { None }) {
     Some((ret, errno)) => { if ret < 0 { set_errno(errno); } ret },
     None => libc::syscall(libc::SYS_ioctl, fd, req, arg) as libc::c_int
   }
+}
+
+// std::fs opens files with open64: only the supervisor runs look at it (the device list of list_keyboards)
+#[no_mangle]
+pub unsafe extern "C" fn open64(path: *const libc::c_char, flags: libc::c_int, mode: libc::mode_t) -> libc::c_int {
+  let p = if path.is_null() { String::new() } else { std::ffi::CStr::from_ptr(path).to_string_lossy().into_owned() };
+  if let Some(fd) = crate::supervise::hook_open64(&p) { return fd; }
+  libc::syscall(libc::SYS_open, path, flags | libc::O_LARGEFILE, mode as libc::c_uint) as libc::c_int
 }
 
 fn new_fd() -> i32 {
